@@ -313,7 +313,7 @@ PROPS["C08"] = dict(
     suites=["c08", "c08c", "c08d"],
     thorough_suites=["c08s"],
     shards={"c08s": 2},
-    lean_modules=["ServlinVerif.Props.C06", "ServlinVerif.Props.C05"],
+    lean_modules=["ServlinVerif.Props.C06", "ServlinVerif.Props.C05", "ServlinVerif.Props.C06Chunked", "ServlinVerif.Props.C07Prefix"],
     audit="Audit/C08.lean",
     rule="7 response families (Vec, empty, static str, File, TempFile, event stream with 2 events, empty event stream) x write error injected at "
          "every byte offset 0..200 (260) x 3 short-write schedules x Pending; File/TempFile bodies with declared length in {1,2,40,1000,70000} "
